@@ -401,9 +401,14 @@ pub fn walk_strategy(max_len: usize) -> impl Strategy<Value = WalkRecipe> + Clon
     ];
     (start, proptest::collection::vec(any::<u16>(), 0..max_len)).prop_map(|(start, choices)| WalkRecipe { start, choices })
 }
-/// walks that stay game-like (reachable material): corpus starts only
+/// corpus entries whose material is reachable in play (the two 32-pawn en passant fantasies are
+/// excluded: their capture trees make quiescence, which has no clock check, effectively endless)
+pub fn gamelike_indices() -> Vec<usize> {
+    (0..CORPUS.len()).filter(|&i| i != 12 && i != 13).collect()
+}
+/// walks that stay game-like (reachable material): game-like corpus starts only
 pub fn gamelike_walk_strategy(max_len: usize) -> impl Strategy<Value = WalkRecipe> + Clone {
-    ((0usize..CORPUS.len()).prop_map(Start::Corpus), proptest::collection::vec(any::<u16>(), 0..max_len)).prop_map(|(start, choices)| WalkRecipe { start, choices })
+    (proptest::sample::select(gamelike_indices()).prop_map(Start::Corpus), proptest::collection::vec(any::<u16>(), 0..max_len)).prop_map(|(start, choices)| WalkRecipe { start, choices })
 }
 pub fn endgame_walk_strategy(max_len: usize) -> impl Strategy<Value = WalkRecipe> + Clone {
     (ENDGAME_RANGE.prop_map(Start::Corpus), proptest::collection::vec(any::<u16>(), 0..max_len)).prop_map(|(start, choices)| WalkRecipe { start, choices })
